@@ -573,7 +573,7 @@ func checkC15(c *core.Ctx) {
 
 	// ---------- CLI level: a chord at the end of a chain of extends is described with every inherited note
 	// (chains of 9 .. 40 chords, one attribute each), and an attribute file may arrive through a pipe
-	c.Stream("chain", 20, func(i int, r *rand.Rand) {
+	c.Stream("chain", 24, func(i int, r *rand.Rand) {
 		depth := 9 + i*2
 		var as []userAttr
 		var cs []userChord
@@ -589,7 +589,7 @@ func checkC15(c *core.Ctx) {
 		// the order of the definitions does not matter (a dictionary is a set of definitions): parents first,
 		// children first, sorted by name, or the younger half in a file given before the file of the older half;
 		// several files in one flag value, separated by commas, or one flag per file
-		layout := []string{"parents-first", "children-first", "sorted-by-name", "two-files-children-first", "two-files-comma"}[(i/2)%5]
+		layout := []string{"parents-first", "children-first", "sorted-by-name", "two-files-children-first", "two-files-comma", "file-named-twice"}[(i/2)%6]
 		ordered := append([]userChord(nil), cs...)
 		switch layout {
 		case "children-first":
@@ -605,6 +605,11 @@ func checkC15(c *core.Ctx) {
 			args = append(args, "--chord", c.Scratch.File("chain-young.yml", chordsYAML(cs[depth/2:])), "--chord", c.Scratch.File("chain-old.yml", chordsYAML(cs[:depth/2])))
 		case "two-files-comma":
 			args = append(args, "--chord", c.Scratch.File("chain-young.yml", chordsYAML(cs[depth/2:]))+","+c.Scratch.File("chain-old.yml", chordsYAML(cs[:depth/2])))
+		case "file-named-twice":
+			// the dictionary, a file that redefines its last chord, the dictionary again: the file given last wins
+			house := c.Scratch.File("chain-chord.yml", chordsYAML(ordered))
+			over := c.Scratch.File("chain-override.yml", chordsYAML([]userChord{{Name: fmt.Sprintf("Zrun%d", depth-1), Display: fmt.Sprintf("zrun%d", depth-1), Attrs: []string{"Zr0"}}}))
+			args = append(args, "--chord", house, "--chord", over, "--chord="+house)
 		default:
 			args = append(args, "--chord", c.Scratch.File("chain-chord.yml", chordsYAML(ordered)))
 		}
@@ -650,7 +655,61 @@ func checkC15(c *core.Ctx) {
 		c.Nontrivial(sig)
 	})
 
+	// chord symbols of a user dictionary that contain the unicode accidentals (7♭9, maj7♯5): the symbol is looked up as
+	// it is written, the ASCII look-alike next to it is another chord
+	uni := []userChord{
+		{Name: "ZflatNine", Display: "7♭9", Attrs: []string{"Perfect1", "Minor9"}},
+		{Name: "ZasciiNine", Display: "7b9", Attrs: []string{"Perfect1", "Major3", "Perfect5"}},
+		{Name: "ZsharpFive", Display: "maj7♯5", Attrs: []string{"Perfect1", "Augmented5"}},
+		{Name: "ZasciiFive", Display: "maj7#5", Attrs: []string{"Perfect1", "Major3", "Major7"}},
+		{Name: "ZflatOnly", Display: "m11♭5", Attrs: []string{"Perfect1", "Minor3", "Diminished5", "Perfect11"}},
+	}
+	uniFile := c.Scratch.File("unicode-symbols.yml", chordsYAML(uni))
+	c.Stream("unisymbol", len(uni)*4, func(i int, _ *rand.Rand) {
+		uc := uni[i%len(uni)]
+		root := roots[(i*5)%len(roots)]
+		target := root.String() + "_" + uc.Display
+		if i/len(uni)%2 == 1 {
+			target = uniNoteText(root) + "_" + uc.Display
+		}
+		res := run(c, nil, "info", "chord", "describe", "-t", target, "--chord", uniFile)
+		c.Eval(1)
+		if infra(c, res) {
+			return
+		}
+		sig := "unisymbol:" + uc.Display
+		if a := abnormal(res); a != "" || !res.OK() {
+			c.Violate("unisymbol", i, sig+":failed", fmt.Sprintf("info chord describe -t %s with a dictionary that defines the symbol %s fails %s", target, uc.Display, a), obs(res))
+			return
+		}
+		m, err := yamlMap(res.Stdout)
+		got := asList(m["attributes"])
+		if err != nil || len(got) != len(uc.Attrs) {
+			c.Violate("unisymbol", i, sig+":count", fmt.Sprintf("info chord describe -t %s reports %d notes, the chord with the symbol %s is defined with %d (err=%v)", target, len(got), uc.Display, len(uc.Attrs), err), obs(res))
+			return
+		}
+		for k, a := range got {
+			am, _ := a.(map[string]any)
+			iv, ok := theory.AttributeInterval(uc.Attrs[k])
+			want, _ := theory.Size(iv.N, iv.Q)
+			if ok && mustInt(am["semitone"]) != want {
+				c.Violate("unisymbol", i, sig+":size", fmt.Sprintf("info chord describe -t %s: note %d has %d semitones, %s has %d", target, k, mustInt(am["semitone"]), uc.Attrs[k], want), obs(res))
+				return
+			}
+		}
+		c.Nontrivial(sig + root.String())
+	})
+
 	bigDictionary(c, roots)
+}
+
+// uniNoteText writes the accidental of a note with the unicode sign.
+func uniNoteText(n theory.Note) string {
+	s := n.String()
+	if len(s) < 2 {
+		return s
+	}
+	return s[:1] + strings.NewReplacer("#", "♯", "b", "♭").Replace(s[1:])
 }
 
 // bigDictionary checks that a user dictionary of several megabytes is read to its end: every attribute around each
@@ -663,6 +722,11 @@ func bigDictionary(c *core.Ctx, roots []theory.Note) {
 	probe := []int{0, n - 1}
 	for k := 0; k < n; k++ {
 		before := b.Len()
+		if k == n/3 {
+			// one very long line (a comment of 70,000 bytes; a dictionary exported on one line looks the same to a
+			// line-by-line reader): everything behind it still counts
+			b.WriteString("# " + strings.Repeat("long line ", 7000) + "\n")
+		}
 		fmt.Fprintf(&b, "- name: Zbig%d\n  degree: %q\n", k, degrees[k%len(degrees)])
 		if before>>20 != b.Len()>>20 {
 			probe = append(probe, k, k+1)
